@@ -351,6 +351,7 @@ func stateEndValue(s *scanner, c byte) int {
 		return stateEndTop(s, c)
 	}
 	if isSpace(c) {
+		s.step = stateEndValue
 		return scanSkipSpace
 	}
 
